@@ -35,6 +35,7 @@ Enc(v) == CASE v.k = "q" -> <<"q", v.n, v.d>>
             [] v.k = "bs" -> <<"bs", v.f, v.v, v.lo, v.hi, Enc(v.body)>>
             [] v.k = "let" -> <<"let", v.v, Enc(v.val), Enc(v.body)>>
             [] v.k = "rv" -> <<"rv", v.v>>
+            [] v.k = "if" -> <<"if", EncI(v.a), EncI(v.b), Enc(v.t), Enc(v.e)>>
             [] v.k = "s" -> <<"s", v.t, v.i>>
             [] v.k = "c" -> <<"c", v.c>>
             [] v.k = "a" -> <<v.f>> \o [i \in DOMAIN v.a |-> Enc(v.a[i])]
